@@ -1,17 +1,17 @@
 (* C02 - a published message reaches the wire intact and correctly framed.
    This file only pins statements. *)
-From Amq Require Import Lib.Base Gen.Consts Model.Publish Proofs.Publish Gen.Src Proofs.PublishSrc.
+From Amq Require Import Lib.Base Gen.Consts Model.Publish Proofs.Publish Lib.RsResult Gen.SrcLimit Proofs.PublishSrc.
 
 (* for EVERY body and every positive payload limit: the body frames' payloads concatenate to exactly the body *)
-Theorem C02_concat : forall (fm : N) (body : bytes), 0 < fm -> concat (body_chunks fm body) = body.
+Theorem C02_concat : forall (fm : N) (body : bytes), 0 < fm -> List.concat (body_chunks fm body) = body.
 Proof. exact body_chunks_concat. Qed.
 
 (* every body frame is non-empty and at most the limit long *)
-Theorem C02_sizes : forall (fm : N) (body : bytes), 0 < fm -> Forall (fun c : list N => 0 < N.of_nat (length c) <= fm) (body_chunks fm body).
+Theorem C02_sizes : forall (fm : N) (body : bytes), 0 < fm -> Forall (fun c : list N => 0 < N.of_nat (Datatypes.length c) <= fm) (body_chunks fm body).
 Proof. exact body_chunks_sizes. Qed.
 
 (* every body frame but the last is exactly the limit long *)
-Theorem C02_full : forall (fm : N) (body : bytes) (pre : list bytes) (c : bytes), 0 < fm -> body_chunks fm body = pre ++ [c] -> Forall (fun x : list N => N.of_nat (length x) = fm) pre.
+Theorem C02_full : forall (fm : N) (body : bytes) (pre : list bytes) (c : bytes), 0 < fm -> body_chunks fm body = (pre ++ [c])%list -> Forall (fun x : list N => N.of_nat (Datatypes.length x) = fm) pre.
 Proof. exact body_chunks_full. Qed.
 
 (* an empty body produces no body frame at all *)
@@ -19,11 +19,11 @@ Theorem C02_empty : forall fm : N, body_chunks fm [] = [].
 Proof. exact body_chunks_empty. Qed.
 
 (* the number of body frames is ceil(len / limit) *)
-Theorem C02_count : forall (fm : N) (body : bytes), 0 < fm -> N.of_nat (length (body_chunks fm body)) = (N.of_nat (length body) + fm - 1) / fm.
+Theorem C02_count : forall (fm : N) (body : bytes), 0 < fm -> N.of_nat (Datatypes.length (body_chunks fm body)) = (N.of_nat (Datatypes.length body) + fm - 1) / fm.
 Proof. exact body_chunks_count. Qed.
 
 (* with the negotiated frame_max (>= FRAME_MIN_SIZE, regenerated from the crate; the 8 bytes of framing too) no body frame including its framing exceeds frame_max *)
-Theorem C02_frame_size : forall (frame_max : N) (body : bytes), c_frame_min_size <= frame_max -> Forall (fun c : list N => N.of_nat (length c) + c_frame_overhead <= frame_max) (body_chunks (payload_limit frame_max) body).
+Theorem C02_frame_size : forall (frame_max : N) (body : bytes), c_frame_min_size <= frame_max -> Forall (fun c : list N => N.of_nat (Datatypes.length c) + c_frame_overhead <= frame_max) (body_chunks (payload_limit frame_max) body).
 Proof. exact body_frame_size. Qed.
 
 (* the payload limit derived from every admissible frame_max (0 = unlimited, or >= 4096) is positive, so the theorems above apply to every negotiated value *)
@@ -31,11 +31,11 @@ Theorem C02_limit_pos : forall frame_max : N, frame_max = 0 \/ c_frame_min_size 
 Proof. exact payload_limit_pos. Qed.
 
 (* one publish: Basic.Publish with exactly the given exchange, routing key, mandatory and immediate; one header of class 60 announcing exactly the body length with the given properties; then non-empty body frames concatenating to the body, none if it is empty *)
-Theorem C02_publish : forall (frame_max : N) (p : publish), frame_max = 0 \/ c_frame_min_size <= frame_max -> exists bodies : list bytes, publish_frames frame_max p = PMethod (p_exchange p) (p_rk p) (p_mandatory p) (p_immediate p) :: PHeader 60 (N.of_nat (length (p_body p))) (p_props p) :: map PBody bodies /\ concat bodies = p_body p /\ Forall (fun c : list N => c <> []) bodies /\ (p_body p = [] -> bodies = []).
+Theorem C02_publish : forall (frame_max : N) (p : publish), frame_max = 0 \/ c_frame_min_size <= frame_max -> exists bodies : list bytes, publish_frames frame_max p = PMethod (p_exchange p) (p_rk p) (p_mandatory p) (p_immediate p) :: PHeader 60 (N.of_nat (Datatypes.length (p_body p))) (p_props p) :: map PBody bodies /\ List.concat bodies = p_body p /\ Forall (fun c : list N => c <> []) bodies /\ (p_body p = [] -> bodies = []).
 Proof. exact publish_frames_spec. Qed.
 
 (* THE MODEL IS THE SOURCE, for the body limit: Channel0Handle::new (src/io_loop/channel_handle.rs) is translated into coq/Gen/Src.v on every run by tools/rs2v.py, and what it stores as the handle's frame_max is exactly the model's payload_limit (0 = no limit; the frame overhead from the compiled crate taken off) for every value; C02_frame_size is about that limit *)
-Theorem C02_limit_source_is_model : forall frame_max : N, gen_Channel0Handle_new frame_max = RsOk (String.String (Ascii.Ascii true true false false false false true false) (String.String (Ascii.Ascii false false false true false true true false) (String.String (Ascii.Ascii true false false false false true true false) (String.String (Ascii.Ascii false true true true false true true false) (String.String (Ascii.Ascii false true true true false true true false) (String.String (Ascii.Ascii true false true false false true true false) (String.String (Ascii.Ascii false false true true false true true false) (String.String (Ascii.Ascii false false false false true true false false) (String.String (Ascii.Ascii false false false true false false true false) (String.String (Ascii.Ascii true false false false false true true false) (String.String (Ascii.Ascii false true true true false true true false) (String.String (Ascii.Ascii false false true false false true true false) (String.String (Ascii.Ascii false false true true false true true false) (String.String (Ascii.Ascii true false true false false true true false) String.EmptyString)))))))))))))) [(String.String (Ascii.Ascii false true true false false true true false) (String.String (Ascii.Ascii false true false false true true true false) (String.String (Ascii.Ascii true false false false false true true false) (String.String (Ascii.Ascii true false true true false true true false) (String.String (Ascii.Ascii true false true false false true true false) (String.String (Ascii.Ascii true true true true true false true false) (String.String (Ascii.Ascii true false true true false true true false) (String.String (Ascii.Ascii true false false false false true true false) (String.String (Ascii.Ascii false false false true true true true false) String.EmptyString)))))))), payload_limit frame_max)].
+Theorem C02_limit_source_is_model : forall frame_max : N, gen_Channel0Handle_new frame_max = RsOk "Channel0Handle" [("frame_max", payload_limit frame_max)].
 Proof. exact limit_source_is_model. Qed.
 
 (* non-vacuity: a 10-byte body with frame_max 4096 is one frame; 4089 bytes are two (4088 + 1) *)
@@ -44,15 +44,15 @@ Example C02_example :
   c_frame_min_size = 4096 /\ c_frame_overhead = 8.
 Proof. vm_compute. repeat split. Qed.
 
-Check C02_concat : forall (fm : N) (body : bytes), 0 < fm -> concat (body_chunks fm body) = body.
-Check C02_sizes : forall (fm : N) (body : bytes), 0 < fm -> Forall (fun c : list N => 0 < N.of_nat (length c) <= fm) (body_chunks fm body).
-Check C02_full : forall (fm : N) (body : bytes) (pre : list bytes) (c : bytes), 0 < fm -> body_chunks fm body = pre ++ [c] -> Forall (fun x : list N => N.of_nat (length x) = fm) pre.
+Check C02_concat : forall (fm : N) (body : bytes), 0 < fm -> List.concat (body_chunks fm body) = body.
+Check C02_sizes : forall (fm : N) (body : bytes), 0 < fm -> Forall (fun c : list N => 0 < N.of_nat (Datatypes.length c) <= fm) (body_chunks fm body).
+Check C02_full : forall (fm : N) (body : bytes) (pre : list bytes) (c : bytes), 0 < fm -> body_chunks fm body = (pre ++ [c])%list -> Forall (fun x : list N => N.of_nat (Datatypes.length x) = fm) pre.
 Check C02_empty : forall fm : N, body_chunks fm [] = [].
-Check C02_count : forall (fm : N) (body : bytes), 0 < fm -> N.of_nat (length (body_chunks fm body)) = (N.of_nat (length body) + fm - 1) / fm.
-Check C02_frame_size : forall (frame_max : N) (body : bytes), c_frame_min_size <= frame_max -> Forall (fun c : list N => N.of_nat (length c) + c_frame_overhead <= frame_max) (body_chunks (payload_limit frame_max) body).
+Check C02_count : forall (fm : N) (body : bytes), 0 < fm -> N.of_nat (Datatypes.length (body_chunks fm body)) = (N.of_nat (Datatypes.length body) + fm - 1) / fm.
+Check C02_frame_size : forall (frame_max : N) (body : bytes), c_frame_min_size <= frame_max -> Forall (fun c : list N => N.of_nat (Datatypes.length c) + c_frame_overhead <= frame_max) (body_chunks (payload_limit frame_max) body).
 Check C02_limit_pos : forall frame_max : N, frame_max = 0 \/ c_frame_min_size <= frame_max -> 0 < payload_limit frame_max.
-Check C02_publish : forall (frame_max : N) (p : publish), frame_max = 0 \/ c_frame_min_size <= frame_max -> exists bodies : list bytes, publish_frames frame_max p = PMethod (p_exchange p) (p_rk p) (p_mandatory p) (p_immediate p) :: PHeader 60 (N.of_nat (length (p_body p))) (p_props p) :: map PBody bodies /\ concat bodies = p_body p /\ Forall (fun c : list N => c <> []) bodies /\ (p_body p = [] -> bodies = []).
-Check C02_limit_source_is_model : forall frame_max : N, gen_Channel0Handle_new frame_max = RsOk (String.String (Ascii.Ascii true true false false false false true false) (String.String (Ascii.Ascii false false false true false true true false) (String.String (Ascii.Ascii true false false false false true true false) (String.String (Ascii.Ascii false true true true false true true false) (String.String (Ascii.Ascii false true true true false true true false) (String.String (Ascii.Ascii true false true false false true true false) (String.String (Ascii.Ascii false false true true false true true false) (String.String (Ascii.Ascii false false false false true true false false) (String.String (Ascii.Ascii false false false true false false true false) (String.String (Ascii.Ascii true false false false false true true false) (String.String (Ascii.Ascii false true true true false true true false) (String.String (Ascii.Ascii false false true false false true true false) (String.String (Ascii.Ascii false false true true false true true false) (String.String (Ascii.Ascii true false true false false true true false) String.EmptyString)))))))))))))) [(String.String (Ascii.Ascii false true true false false true true false) (String.String (Ascii.Ascii false true false false true true true false) (String.String (Ascii.Ascii true false false false false true true false) (String.String (Ascii.Ascii true false true true false true true false) (String.String (Ascii.Ascii true false true false false true true false) (String.String (Ascii.Ascii true true true true true false true false) (String.String (Ascii.Ascii true false true true false true true false) (String.String (Ascii.Ascii true false false false false true true false) (String.String (Ascii.Ascii false false false true true true true false) String.EmptyString)))))))), payload_limit frame_max)].
+Check C02_publish : forall (frame_max : N) (p : publish), frame_max = 0 \/ c_frame_min_size <= frame_max -> exists bodies : list bytes, publish_frames frame_max p = PMethod (p_exchange p) (p_rk p) (p_mandatory p) (p_immediate p) :: PHeader 60 (N.of_nat (Datatypes.length (p_body p))) (p_props p) :: map PBody bodies /\ List.concat bodies = p_body p /\ Forall (fun c : list N => c <> []) bodies /\ (p_body p = [] -> bodies = []).
+Check C02_limit_source_is_model : forall frame_max : N, gen_Channel0Handle_new frame_max = RsOk "Channel0Handle" [("frame_max", payload_limit frame_max)].
 
 Print Assumptions C02_concat.
 Print Assumptions C02_sizes.
